@@ -341,6 +341,27 @@ def run(ctx, rep) -> None:
                       e.site[0], e.site[1], disc=f"error-branch:{e.get('okind')}:{','.join(illegal)}")
     rep.floor("validated status writes on fault paths", n7, 1)
 
+    # ---- R8: a lost claim is not a duplicate unless somebody else holds the stage -----------------------------------------
+    # The claim CAS (version AND status) also fails when another KIND of writer bumped the version while the status is still
+    # NOT_STARTED (a persistent signal buffered into the stage, join bookkeeping written by an upstream's completion). Then
+    # nobody claimed the stage; consuming the StartStage leaves the stage NOT_STARTED with nothing queued.
+    rep.rule("C05.R8", "the ConcurrencyError handler of the StartStage claim consumes the message only after re-reading the stage and finding it no longer NOT_STARTED (otherwise it re-raises / retries / re-queues)")
+    sir = prog.func("stabilize.handlers.start_stage.handler", "StartStageHandler._start_if_ready")
+    claim_tries = [t_ for t_ in ast.walk(sir.node) if isinstance(t_, ast.Try) and any(isinstance(c_, ast.Call) and isinstance(c_.func, ast.Attribute) and c_.func.attr == "store_stage" and any(k_.arg == "expected_phase" for k_ in c_.keywords)
+                                                                                         for b_ in t_.body for c_ in ast.walk(b_))]
+    rep.floor("claim try-blocks in _start_if_ready", len(claim_tries), 1)
+    for t_ in claim_tries:
+        hs = [h_ for h_ in t_.handlers if h_.type is not None and "ConcurrencyError" in norm(h_.type)]
+        for h_ in hs:
+            rereads = any(isinstance(c_, ast.Call) and isinstance(c_.func, ast.Attribute) and c_.func.attr in ("retrieve_stage",) for c_ in ast.walk(h_))
+            reraises = any(isinstance(x_, ast.Raise) for x_ in ast.walk(h_))
+            requeues = any(isinstance(c_, ast.Call) and isinstance(c_.func, ast.Attribute) and c_.func.attr in ("push", "push_message") for c_ in ast.walk(h_))
+            ok = rereads and (reraises or requeues)
+            rep.check(ok, "C05.R8", "StartStage claim: a lost CAS is treated as a duplicate only if the stage left NOT_STARTED", "the handler re-reads the stage and re-raises / re-queues while it is still NOT_STARTED" if ok else
+                      "`except ConcurrencyError: return` after the claim: the CAS also fails when a persistent signal or join bookkeeping was written onto the still NOT_STARTED stage between this handler's read and its claim - "
+                      "nobody holds the stage, yet the StartStage is consumed (marked processed and acked): the stage never starts and the workflow stays RUNNING with an empty queue",
+                      sir.file, h_.lineno, disc="claim-lost-consumed")
+
     # ---- R3 continuation effectiveness ------------------------------------------------------------------
     n3 = 0
     for pi in infos:
